@@ -160,6 +160,20 @@ def build():
     u.fn(IC, 'wrap', within='impl<B> ResponseBody<B>', ensures=[Clause('kind', 'r.kind == ResponseBodyKind::Wrap(body)')])
     u.close('}')
 
+    # the wiring: the layer installs an InterceptedService around the service, with (a clone of) its interceptor
+    u.item(IC, 'struct', 'InterceptorLayer')
+    u._emit('impl<S, I> InterceptedService<S, I> {'); u._open_header = 'impl<S, I> InterceptedService<S, I> {'
+    u.fn(IC, 'new', within='impl<S, I> InterceptedService<S, I>', ensures=[Clause('W1_wraps_this_service_with_this_interceptor', 'r.inner == service && r.interceptor == interceptor')])
+    u.close('}')
+    u.raw('''
+// A-core-28: Clone of an interceptor gives an interceptor that decides the same (closures / fn items are copied)
+pub trait CloneSame: Sized { fn clone(&self) -> (r: Self) ensures r == *self; }
+''')
+    u.fn(IC, 'layer', within='impl<S, I> Layer<S> for InterceptorLayer<I>',
+         header='impl<I: CloneSame> InterceptorLayer<I> {', close=True,
+         sig_edits=[lambda t: t.sub_code('R9', r'Self::Service', 'InterceptedService<S, I>'),
+                    lambda t: t.sub_code('R12', r'fn layer\(', 'fn layer<S>(')],
+         ensures=[Clause('W2_the_layer_installs_its_interceptor_around_the_service', 'r.inner == service && r.interceptor == self.interceptor')])
     u.fn(IC, 'call', within='impl<S, I, ReqBody, ResBody> Service<http::Request<ReqBody>> for InterceptedService<S, I>',
          header='''impl<S, I> InterceptedService<S, I>
 where
